@@ -40,7 +40,7 @@ func main() {
 		for _, line := range genCase(*engine, *mode, *tier, r, id, i) {
 			w.WriteString(line)
 			w.WriteByte('\n')
-			if len(line) > 7 && line[len(line)-6:] == "R hang" {
+			if hangDetected || (len(line) > 7 && line[len(line)-6:] == "R hang") {
 				// a call that never returns keeps its goroutine: stop here, the verdict is already decided
 				w.Flush()
 				f.Close()
@@ -59,6 +59,10 @@ func main() {
 	w.Flush()
 	f.Close()
 }
+
+// hangDetected is set by an engine when a goframe call did not return before its deadline: the goroutine
+// cannot be reclaimed, the verdict is already decided, so the run stops after writing that case.
+var hangDetected bool
 
 func genCase(engine, mode, tier string, r *Rng, id string, i int) []string {
 	switch engine {
